@@ -227,6 +227,15 @@ def gen_C14(tier, seed):
         out.append(f"{f} {p2(d)} {p2(s)}")
         if r.random() < 0.1:
             out.append(f"approx {p2(d)}")
+    # exact ties of Epoch::round (elapsed time half a step from two multiples), before and after the reference, both step signs
+    for t in (0, 1, 4, 5, 6, 7, 8):
+        for st in (2, 10, 2 * SEC, 3600 * SEC, NPD, 2 * NPC):
+            for k in (-40000, -3, -2, -1, 0, 1, 2, 40000):
+                for dlt in (0, 1, -1):
+                    v = k * st + st // 2 + dlt
+                    if MINV < v < MAXV:
+                        out.append(f"eround {p3(parts_of(v) + (t,))} {p2(parts_of(st))}")
+                        out.append(f"eround {p3(parts_of(v) + (t,))} {p2(parts_of(-st))}")
     # the same operations on epochs: they act on the elapsed time in the epoch's own scale, before and after its reference
     re_ = random.Random(seed * 41 + 14)
     for t in (0, 1, 4, 5, 7):
@@ -446,6 +455,14 @@ def gen_C12(tier, seed):
                     for f in ("ecmp", "eeq", "emin", "emax"):
                         out.append(f"{f} {p3(a)} {p3(b)}")
                         out.append(f"{f} {p3(b)} {p3(a)}")
+    # two epochs of one scale so close to the Duration bounds that converting them to another scale saturates: still distinct, still ordered
+    for t in INT_SCALES:
+        for base, sg in ((MAXV, -1), (MINV, 1)):
+            for d1, d2 in ((NPD, 2 * NPD), (SEC, 2 * SEC), (0, 1), (1, 2), (10 * NPD, 40 * 365 * NPD), (NPC // 2, NPC)):
+                a = parts_of(base + sg * d1) + (t,); b = parts_of(base + sg * d2) + (t,)
+                for f in ("ecmp", "eeq", "emin", "emax"):
+                    out.append(f"{f} {p3(a)} {p3(b)}")
+                    out.append(f"{f} {p3(b)} {p3(a)}")
     # symmetric about the reference in the same scale (the old Duration == quirk)
     for t in range(9):
         for d in (1, 1000, SEC, NPC - 1):
